@@ -381,6 +381,7 @@ func runC23With(ctx *ev.Ctx, c c23Case, hook txHook) {
 		panic("harness: unknown router " + c.Router)
 	}
 	ctx.Label("router:" + c.Router)
+	ctx.Label(fmt.Sprintf("arglen:%d", c.ArgLen))
 	ccmc := ecommon.BytesToAddress(crypto.Keccak256([]byte("ccmc-contract"))[12:])
 
 	// ---- source-chain world states
